@@ -1,6 +1,177 @@
-/- stub: property C01 has no model driver yet -/
-namespace ActixModel.Drv.C01
+import ActixModel.Util
+import ActixModel.Model.H1Chunked
+import ActixModel.Model.H1Decode
+import ActixModel.Model.H1Conn
+/-
+Line-protocol driver for C01 (same grammar as `harness/src/props/c01.rs`):
 
-def run (_line : String) : String := "unimplemented"
+  codec s=<spec> [x=…] [cls=…] <stream-hex>     conn s=<spec> e=<0|1> [cls=…] <stream-hex>
+  spec: w | b1 | a2 | c<o1>.<o2>…
+
+Output: `M:<method>:<target-hex>:<ver>:<hdrs>:<n|p|s|?>:<body>:<state>` per request, then
+`R400|R431|RIO|Th<n>|Tb` (codec) or `S:<statuses> C<0|1>` (conn); for `a2` the whole-stream
+result followed by `A2:ok` / `A2:<first offset whose 2-cut gives another result>`.
+-/
+namespace ActixModel.Drv.C01
+open ActixModel.Util ActixModel.H1
+
+structure RMsg where
+  head : ReqHead
+  kind : Char
+  chunks : List Bytes   -- reversed
+  done : Char
+
+def fnv64 (bs : Bytes) : UInt64 :=
+  bs.foldl (fun h b => (h ^^^ b.toUInt64) * 0x00000100000001b3) 0xcbf29ce484222325
+
+def hex16 (v : UInt64) : String :=
+  let n := v.toNat
+  String.ofList ((List.range 16).reverse.map fun i => hexDigit ((n / 16 ^ i) % 16))
+
+def showBody (b : Bytes) : String :=
+  if b.isEmpty then "-"
+  else if b.length ≤ 24 then hexOfBytes b
+  else "#" ++ toString b.length ++ "." ++ hex16 (fnv64 b)
+
+def bytesLt : Bytes → Bytes → Bool
+  | [], [] => false
+  | [], _ :: _ => true
+  | _ :: _, [] => false
+  | a :: as, b :: bs => if a < b then true else if b < a then false else bytesLt as bs
+
+/-- stable insertion sort by name -/
+def insertHdr (x : Bytes × Bytes) : List (Bytes × Bytes) → List (Bytes × Bytes)
+  | [] => [x]
+  | y :: ys => if bytesLt x.1 y.1 then x :: y :: ys else y :: insertHdr x ys
+
+def sortHdrs (hs : List (Bytes × Bytes)) : List (Bytes × Bytes) :=
+  hs.foldl (fun acc h => insertHdr h acc) []
+
+def showHdrs (hs : List (Bytes × Bytes)) : String :=
+  if hs.isEmpty then "-"
+  else joinWith "," ((sortHdrs hs).map fun h => stringOfBytes h.1 ++ "=" ++ hexOfBytes h.2)
+
+def showMsg (m : RMsg) : String :=
+  "M:" ++ stringOfBytes m.head.method ++ ":" ++ hexOfBytes m.head.target ++ ":" ++
+    (if m.head.version == 1 then "1.1" else "1.0") ++ ":" ++ showHdrs m.head.headers ++ ":" ++
+    String.singleton m.kind ++ ":" ++ showBody (m.chunks.reverse.flatten) ++ ":" ++ String.singleton m.done
+
+/-- fold codec messages into per-request records (reversed list) -/
+def collect : List RMsg → List Msg → List RMsg
+  | acc, [] => acc
+  | acc, .item h pt :: rest =>
+    let kind := match pt with
+      | .none => 'n'
+      | .payload _ => 'p'
+      | .stream _ => 's'
+    collect ({ head := h, kind := kind, chunks := [], done := if kind == 'n' then 'c' else 'p' } :: acc) rest
+  | acc, .chunk bs :: rest =>
+    match acc with
+    | m :: ms => collect ({ m with chunks := bs :: m.chunks } :: ms) rest
+    | [] => collect [] rest
+  | acc, .eof :: rest =>
+    match acc with
+    | m :: ms => collect ({ m with done := 'c' } :: ms) rest
+    | [] => collect [] rest
+
+def showEnd (msgs : List RMsg) (f : Feed) : String :=
+  match f.dead with
+  | some .tooLarge => "R431"
+  | some (.chunk _) => "RIO"
+  | some _ => "R400"
+  | none =>
+    match msgs with
+    | m :: _ => if m.done == 'p' then "Tb" else "Th" ++ toString f.buf.length
+    | [] => "Th" ++ toString f.buf.length
+
+def runCodec (segs : List Bytes) : String :=
+  let (ms, f) := feedAll {} segs
+  let r := collect [] ms
+  joinWith " " (r.reverse.map showMsg ++ [showEnd r f])
+
+inductive Spec where
+  | whole | bytes1 | all2 | cuts (c : List Nat)
+
+def parseSpec (s : String) : Option Spec :=
+  if s == "w" then some .whole
+  else if s == "b1" then some .bytes1
+  else if s == "a2" then some .all2
+  else if s.startsWith "c" then
+    let parts := ((s.drop 1).toString.splitOn ".")
+    if parts.all (fun p => p.toNat?.isSome) then some (.cuts (parts.map fun p => p.toNat?.getD 0)) else none
+  else none
+
+def splitAt (stream : Bytes) (cuts : List Nat) : List Bytes :=
+  let rec go (rest : Bytes) (prev : Nat) : List Nat → List Bytes
+    | [] => [rest]
+    | c :: cs =>
+      let c := max (min c stream.length) prev
+      rest.take (c - prev) :: go (rest.drop (c - prev)) c cs
+  go stream 0 cuts
+
+def segments (stream : Bytes) : Spec → List Bytes
+  | .whole => [stream]
+  | .all2 => [stream]
+  | .bytes1 => stream.map fun b => [b]
+  | .cuts c => splitAt stream c
+
+/-- first offset 1 ≤ k < n at which `f [take k, drop k] ≠ whole`, scanning upwards -/
+def firstBad2 (stream : Bytes) (whole : String) (f : List Bytes → String) (tol : String → Bool) : Option Nat :=
+  let n := stream.length
+  let rec go (fuel k : Nat) : Option Nat :=
+    match fuel with
+    | 0 => none
+    | fuel + 1 =>
+      if k ≥ n then none
+      else
+        let r := f [stream.take k, stream.drop k]
+        if r != whole && !tol r then some k else go fuel (k + 1)
+  go n 1
+
+/-- a segmented run that ends in 431 on a stream of at least MAX_BUFFER_SIZE bytes is the
+documented limit behaviour (the limit is only tested while a head is incomplete) -/
+def tooLargeTol (stream : Bytes) (r : String) : Bool :=
+  stream.length ≥ Consts.h1MaxBufferSize && (r == "R431" || r.endsWith " R431")
+
+def showCall (c : Call) : String :=
+  let done := match c.st with
+    | .pending => 'p'
+    | .complete => 'c'
+    | .incomplete => 'i'
+    | .corrupted => 'e'
+  showMsg { head := c.head, kind := '?', chunks := [c.body], done := done }
+
+def runConn (segs : List Bytes) (eof : Bool) : String :=
+  let evs := segs.map ConnEv.read ++ (if eof then [ConnEv.eof] else [])
+  let c := connRun {} evs
+  let st := if c.statuses.isEmpty then "-" else joinWith "," (c.statuses.map toString)
+  joinWith " " (c.calls.map showCall ++ ["S:" ++ st, "C" ++ (if c.closed then "1" else "0")])
+
+def run (line : String) : String :=
+  let ws := words line
+  match ws with
+  | level :: _ =>
+    match (kv ws "s").bind parseSpec, ws.getLast?.bind bytesOfHex with
+    | some spec, some stream =>
+      if level == "codec" then
+        let out := runCodec (segments stream spec)
+        match spec with
+        | .all2 =>
+          match firstBad2 stream out runCodec (tooLargeTol stream) with
+          | none => out ++ " A2:ok"
+          | some k => out ++ " A2:" ++ toString k
+        | _ => out
+      else if level == "conn" then
+        let eof := kv ws "e" == some "1"
+        let out := runConn (segments stream spec) eof
+        match spec with
+        | .all2 =>
+          match firstBad2 stream out (fun s => runConn s eof) (fun _ => false) with
+          | none => out ++ " A2:ok"
+          | some k => out ++ " A2:" ++ toString k
+        | _ => out
+      else "bad-case"
+    | _, _ => "bad-case"
+  | [] => "bad-case"
 
 end ActixModel.Drv.C01
